@@ -853,6 +853,9 @@ func init() {
 		},
 	})
 	registerReplayer("C09", func(f oracleFailure) (string, bool) {
+		if f.Family == "streamsched" && schedReplay != nil {
+			return schedReplay(f)
+		}
 		if f.Case == "" {
 			return "free-running concurrent run (" + f.Signature + "): not replayable as a script; re-run bin/check (detail: " + fmt.Sprint(f.Detail) + ")", false
 		}
@@ -885,6 +888,9 @@ func init() {
 // ------------------------------------------------------------------------
 // Oracle 1 (model-free): sequential scripts; what each stream delivered is
 // compared with the scope-filtered suffix of the real local.oplog history.
+
+// set by fam_streamsched.go (build tag verif)
+var schedReplay func(f oracleFailure) (string, bool)
 
 const (
 	sigSilentSkip   = "C09:silent-skip-unanchored-stream"
